@@ -4,7 +4,9 @@
 //
 //   C12 hist (tree NODE*) (steps STEP*)
 //
-//   NODE  ::= (p P)            px.NewParentedLoader(parent), parent = node P, or the static loader when P = -1
+//   NODE  ::= (st)             node 0 only: the static loader itself (px.StaticLoader()); it may be asked (has, get, disc) but
+//                              no load / def / add may address it; the only core type name a line may use is Integer
+//           | (p P)            px.NewParentedLoader(parent), parent = node P, or the static loader when P = -1
 //           | (f P)            the loader of ctx_P.Fork()  (Context.Fork creates a parented child loader); P >= 0
 //   NAME  ::= (n NS xNAME A)   px.NewTypedName2(NS, NAME, authority); A = r (runtime authority) | o (another authority)
 //   VAL   ::= (t N)            the type Integer[N,N]     (a fresh object every time: equality goes through Equals)
@@ -202,6 +204,12 @@ func (v valT) build() interface{} {
 
 // canon renders a value handed out by a loader
 func canon(v interface{}) string {
+	if t, ok := v.(px.Type); ok {
+		// the very object the static loader holds under that name
+		if e := px.StaticLoader().GetEntry(px.NewTypedName(px.NsType, t.Name())); e != nil && e.Value() == v {
+			return fmt.Sprintf("(core %s)", sx.Str(strings.ToLower(t.Name())))
+		}
+	}
 	switch v := v.(type) {
 	case *types.TypeAliasType:
 		if it, ok := v.ResolvedType().(*types.IntegerType); ok {
@@ -217,10 +225,22 @@ func canon(v interface{}) string {
 	return fmt.Sprintf("(other %T)", v)
 }
 
+// hasStatic: node 0 of the tree is the static loader
+func hasStatic(tree sx.Sexp) bool {
+	a := tree.Args()
+	return len(a) > 0 && a[0].Tag() == "st" && len(a[0].Args()) == 0
+}
+
 func parseLine(args []sx.Sexp) (parent []int, forked []bool, steps []stepT) {
 	must(len(args) == 2 && args[0].Tag() == "tree" && args[1].Tag() == "steps", "shape")
 	for i, nd := range args[0].Args() {
 		a := nd.Args()
+		if nd.Tag() == "st" && len(a) == 0 {
+			must(i == 0, "static loader elsewhere than at node 0")
+			parent = append(parent, -1)
+			forked = append(forked, false)
+			continue
+		}
 		must((nd.Tag() == "p" || nd.Tag() == "f") && len(a) == 1, "node")
 		p, err := a[0].AsInt()
 		must(err == nil && p >= -1 && int(p) < i, "parent index")
@@ -258,6 +278,7 @@ func parseLine(args []sx.Sexp) (parent []int, forked []bool, steps []stepT) {
 		default:
 			panic(bad{"op"})
 		}
+		must(!(hasStatic(args[0]) && st.l == 0 && (st.op == "load" || st.op == "def" || st.op == "add")), "the static loader is never written")
 		steps = append(steps, st)
 	}
 	return
@@ -319,7 +340,7 @@ func exec(c px.Context, op string, args []sx.Sexp) (res core.Result) {
 		}
 	}()
 	parent, forked, steps := parseLine(args)
-	return run(parent, forked, steps)
+	return run(parent, forked, steps, hasStatic(args[0]))
 }
 
 type world struct {
@@ -327,9 +348,15 @@ type world struct {
 	ctxs    []px.Context
 }
 
-func build(parent []int, forked []bool) *world {
+func build(parent []int, forked []bool, static bool) *world {
 	w := &world{}
 	for i, p := range parent {
+		if static && i == 0 {
+			l := px.StaticLoader().(px.DefiningLoader)
+			w.loaders = append(w.loaders, l)
+			w.ctxs = append(w.ctxs, pcore.NewContext(l, pcore.Logger()))
+			continue
+		}
 		if forked[i] {
 			cf := w.ctxs[p].Fork()
 			w.ctxs = append(w.ctxs, cf)
@@ -351,8 +378,11 @@ func (n nameT) tn() px.TypedName {
 	return px.NewTypedName2(px.Namespace(n.ns), n.name, px.URI(n.auth))
 }
 
-func run(parent []int, forked []bool, steps []stepT) core.Result {
-	w := build(parent, forked)
+// coreKey: the map keys of the core types a line may name
+var coreKeys = map[string]string{string(px.RuntimeNameAuthority) + "/type/integer": "integer"}
+
+func run(parent []int, forked []bool, steps []stepT, static bool) core.Result {
+	w := build(parent, forked, static)
 	ref := newRef(parent, true)
 	exact := newRef(parent, false) // the same reference without case folding: only used to NAME a failure `case-split`
 
@@ -366,9 +396,19 @@ func run(parent []int, forked []bool, steps []stepT) core.Result {
 		}
 	}
 	for k := range keys {
-		// the static loader (ancestor of every root) must not know the names of the universe: the model has no static level
-		if px.StaticLoader().HasEntry(px.TypedNameFromMapKey(k)) {
+		// without a static node the static loader (ancestor of every root) must not know the names of the universe; with
+		// one, the only core type a line may name is the one the model preloads
+		if px.StaticLoader().HasEntry(px.TypedNameFromMapKey(k)) && !(static && coreKeys[k] != "") {
 			return core.Result{Out: "bad-op", Pred: "n/a"}
+		}
+	}
+	if static {
+		// what the static loader binds, as far as this line can see it
+		for _, n := range names {
+			if c := coreKeys[ref.key(n)]; c != "" {
+				ref.own[0][ref.key(n)] = fmt.Sprintf("(core %s)", sx.Str(c))
+				exact.own[0][exact.key(n)] = ref.own[0][ref.key(n)]
+			}
 		}
 	}
 	sortedKeys := make([]string, 0, len(keys))
@@ -665,6 +705,35 @@ func gen(g *core.G) {
 		}
 	}
 
+	// the static loader as node 0 (it binds Integer): histories of length <= 2 (quick) / <= 3 (thorough) over
+	// static <- 1 <- 2 and the names {Integer, integer, a}
+	{
+		var alpha []string
+		for l := 0; l < 3; l++ {
+			for _, n := range []string{"Integer", "integer", "a"} {
+				x := nm("type", n, "r")
+				alpha = append(alpha, fmt.Sprintf("(has %d %s)", l, x), fmt.Sprintf("(get %d %s)", l, x))
+				if l > 0 {
+					alpha = append(alpha, fmt.Sprintf("(load %d %s)", l, x), fmt.Sprintf("(def %d %s (t 1))", l, x))
+				}
+			}
+			alpha = append(alpha, fmt.Sprintf("(disc %d all)", l))
+		}
+		var rec2 func(prefix []string)
+		rec2 = func(prefix []string) {
+			if len(prefix) > 0 {
+				g.Emit("hist (tree (st) (p 0) (p 1)) (steps " + strings.Join(prefix, " ") + ")")
+			}
+			if len(prefix) == maxLen-1 {
+				return
+			}
+			for _, a := range alpha {
+				rec2(append(prefix, a))
+			}
+		}
+		rec2(nil)
+	}
+
 	// 2. random histories of length 40 (every third one: 3..8) over random trees of depth <= 3
 	r := g.Rng
 	names := []string{nm("type", "a", "r"), nm("type", "A", "r"), nm("type", "b", "r"), nm("type", "m::a", "r"), nm("type", "M::A", "r"),
@@ -675,9 +744,18 @@ func gen(g *core.G) {
 		nl := 2 + r.Intn(3)
 		var tree []string
 		depth := []int{}
+		static := r.Intn(4) == 0
 		for j := 0; j < nl; j++ {
+			if static && j == 0 {
+				tree = append(tree, "(st)")
+				depth = append(depth, 0)
+				continue
+			}
 			p := -1
-			if j > 0 {
+			if static {
+				p = 0
+			}
+			if j > 0 && !(static && j == 1) {
 				for {
 					p = r.Intn(j)
 					if depth[p] < 3 {
@@ -702,6 +780,9 @@ func gen(g *core.G) {
 		for j := range local {
 			local[j] = names[r.Intn(len(names))]
 		}
+		if static {
+			local[0] = core.Pick(r, []string{nm("type", "Integer", "r"), nm("type", "integer", "r"), nm("type", "::INTEGER", "r")})
+		}
 		var steps []string
 		hl := 40
 		if i%3 == 0 {
@@ -710,7 +791,11 @@ func gen(g *core.G) {
 		for j := 0; j < hl; j++ {
 			l := r.Intn(nl)
 			x := local[r.Intn(k)]
-			switch r.Intn(10) {
+			op := r.Intn(10)
+			if static && l == 0 && (op < 6 || op == 9) {
+				op = 6 + r.Intn(3) // the static loader is only asked
+			}
+			switch op {
 			case 0, 1, 2:
 				steps = append(steps, fmt.Sprintf("(load %d %s)", l, x))
 			case 3, 4, 5:
